@@ -101,7 +101,7 @@ def sequences(max_len=3):
         yield from itertools.product(range(len(OPS)), repeat=n)
 
 
-def run(kind, seq):
+def run(kind, seq, enumerate_empty_hdf5=False):
     cache = _mk(kind)
     ref = Ref(kind != "SimpleCache")
     passed = {"i": [], "o": [], "j": []}
@@ -141,6 +141,15 @@ def run(kind, seq):
                 return {"step": step, "probe": p, "what": "outputs", "got": repr(got_o), "expected": repr(exp_o)}
             if not _eq(got_j, exp_j):
                 return {"step": step, "probe": p, "what": "jacobian", "got": repr(got_j), "expected": repr(exp_j)}
+        # enumeration: the entries in index (insertion) order, len(cache) of them
+        if kind == "HDF5Cache" and not ref.entries and not enumerate_empty_hdf5:
+            continue  # (iterating over an empty HDF5Cache raises AssertionError: known finding, only exercised for get_all_entries / __iter__)
+        got = [(dict(e.inputs), dict(e.outputs) if e.outputs else {}, {k: dict(v) for k, v in e.jacobian.items()} if e.jacobian else {}) for e in cache]
+        if len(got) != len(ref.entries) or len(cache) != len(ref.entries):
+            return {"step": step, "what": "number of entries", "got": (len(got), len(cache)), "expected": len(ref.entries)}
+        for n, (g, e) in enumerate(zip(got, ref.entries)):
+            if not (_eq(g[0], e[0]) and _eq(g[1], e[1]) and _eq(g[2], e[2])):
+                return {"step": step, "what": f"entry {n + 1} of the enumeration", "got": repr(g), "expected": repr(e)}
     return None
 
 
@@ -161,24 +170,34 @@ def replay(ob, seed=0):
     for name in ("cache_outputs", "cache_jacobian", "clear"):
         if ob.func.endswith("." + name):
             want = name
+    import os
+    import time
+
+    # wall-clock budget of one search (the enumeration is deterministic and shortest-first; a witness of the known defects is found
+    # within the first sequences): without it a clause this harness cannot exercise costs minutes per violation on a loaded machine
+    deadline = time.time() + float(os.environ.get("RT_C05_BUDGET", "30"))
     for kind in kinds_for(ob.func):
         for idx, seq in enumerate(sequences(2 if kind == "HDF5Cache" else 3)):  # (file-based: every operation opens the file)
+            if time.time() > deadline:
+                return None
             if want and not any(OPS[i][0] == want for i in seq):
                 continue
             if want != "clear" and any(OPS[i][0] == "clear" for i in seq):
                 continue  # (clear is only exercised for the obligations of clear: HDF5Cache.clear on an empty node is a known finding)
+            enum = ob.func.endswith((".get_all_entries", ".__iter__"))
             try:
-                r = run(kind, seq)
+                r = run(kind, seq, enum)
             except Exception as e:  # noqa: BLE001
                 r = {"exception": repr(e)}
             if r is not None:
-                return {"scenario": "cache-vs-reference-model", "kind": kind, "sequence": [list(OPS[i]) for i in seq], "sequence_ids": list(seq), "failure": r}
+                return {"scenario": "cache-vs-reference-model", "kind": kind, "sequence": [list(OPS[i]) for i in seq], "sequence_ids": list(seq), "enumerate_empty_hdf5": enum,
+                        "failure": r}
     return None
 
 
 def rerun(w):
     try:
-        r = run(w["kind"], tuple(w["sequence_ids"]))
+        r = run(w["kind"], tuple(w["sequence_ids"]), w.get("enumerate_empty_hdf5", False))
     except Exception as e:  # noqa: BLE001
         r = {"exception": repr(e)}
     return {"fails": r is not None, "failure": r}
